@@ -1,6 +1,7 @@
 //! Verification harness for jpreprocess/jbonsai: property-based testing and fuzzing.
 pub mod bundled;
 pub mod corpus;
+pub mod dsp;
 pub mod engine_util;
 pub mod hts_reader;
 pub mod props;
